@@ -127,7 +127,7 @@ def _attack(col, ctx, np, shard, only):
             inter = full[np.arange(N)[:, None], true[None, :], np.arange(nwords)[None, :]]       # intermediate value under the TRUE (reference) round key
             mo = {'hw': scared.HammingWeight(), 'bit': scared.Monobit(0), 'value': scared.Value()}[model]
             leak = mo(inter).astype('float64')
-            noise = (((np.arange(N)[:, None] * 7 + np.arange(nwords + 2)[None, :] * 13) % 5) - 2) / 16.0
+            noise = np.round(rng_for(seed, 'c17-noise', cipher).uniform(-0.125, 0.125, (N, nwords + 2)), 4)     # bounded, seeded, independent per sample
             traces = np.concatenate([leak, np.zeros((N, 2))], axis=1) + noise
             ths = scared.traces.read_ths_from_ram(traces.astype('float32'), **{tag: data, 'key': np.tile(key, (N, 1))})
             try:
